@@ -812,8 +812,36 @@ func scenIdentity(e *engineA) error {
 					e.rc.emitNode(n.dir, rec)
 				}
 				e.exclusiveIdle(cl, n)
-				if _, err := cl.start(id, n.dir); err != nil {
+				// an instance created now, while nobody serves the directory ...
+				pre, errPre := raft.New(cl.opt, newRecFSM(e.rc, n.dir+".pre"), n.dir)
+				nn, err := cl.start(id, n.dir)
+				if err != nil {
 					e.rc.emit(&ev.Rec{K: "restart-failed", Cid: cl.cid, Nid: id, Err: err.Error()})
+				}
+				locked := func() bool {
+					_, err := os.Lstat(filepath.Join(n.dir, "lock"))
+					return err == nil
+				}
+				if errPre == nil && err == nil && nn != nil && e.waitFor(40, locked) {
+					// ... asks to serve it while the node does: refused, and the
+					// node's claim on the directory is what it was
+					lis := e.net.Listen(fmt.Sprintf("pre%d:1", e.cl.nextOp()), nn.label+"pre")
+					done := make(chan error, 1)
+					go func() { done <- pre.Serve(lis) }()
+					rec := &ev.Rec{K: "exclusive", Op: "second-serve-while-serving", Note: "instance created before the node started"}
+					select {
+					case err := <-done:
+						if err != nil {
+							rec.Err = err.Error()
+						}
+					case <-time.After(10 * e.hb()):
+						rec.Note = "second instance is serving"
+						ctx, cancel := context.WithTimeout(context.Background(), 10*time.Second)
+						_ = pre.Shutdown(ctx)
+						cancel()
+					}
+					e.rc.emitNode(nn.dir, rec)
+					e.exclusive(cl, nn)
 				}
 			}
 		}
@@ -1318,7 +1346,7 @@ func scenInstallCrash(e *engineA) error {
 		e.cl.fsmOpPad(1, l, "update", pad)
 	}
 	f := e.others(l)[e.rng.Intn(2)]
-	pts := []string{"install.stored", "install.stored", "install.logHandled", "log.reset.each", "log.reset.created", "clearLog", "cut-mid-snapshot", "cut-mid-snapshot"}
+	pts := []string{"install.stored", "install.stored", "install.logHandled", "log.reset.each", "log.reset.last", "log.reset.last", "log.reset.created", "clearLog", "cut-mid-snapshot", "cut-mid-snapshot"}
 	pt := pts[e.rng.Intn(len(pts))]
 	e.rc.emit(&ev.Rec{K: "fault", Op: "install-crash at " + pt, Nid: f.nid})
 	e.isolate(f, true)
@@ -1339,6 +1367,15 @@ func scenInstallCrash(e *engineA) error {
 	occ := 1
 	if pt == "log.reset.each" {
 		occ = 1 + e.rng.Intn(4)
+	}
+	if pt == "log.reset.last" {
+		// after the last segment file is gone and before the new one exists:
+		// the directory holds no log at all
+		segs, _ := filepath.Glob(filepath.Join(f.dir, "log", "*.log"))
+		pt, occ = "log.reset.each", len(segs)
+		if occ == 0 {
+			occ = 1
+		}
 	}
 	if pt == "cut-mid-snapshot" {
 		// no kill: the leader's side of the connection goes away somewhere in
